@@ -538,13 +538,6 @@ func body(c *sched.Ctl, cs Case, v *ev.Verdict) {
 			if cn.m == nil {
 				continue
 			}
-			if cn.returned && cn.m.live && len(c.Pending()) == 0 && (cn.err != nil || cn.callerRel || cn.kind == "access") {
-				// the call is over and the caller holds nothing (it got an error, or released what
-				// it got): the reference the call had registered must be gone, otherwise the value
-				// stays pinned although nobody references it
-				fail("C08", "refcount:consumer-reference-leaked", "%s: %s #%d returned (value %d, error %v, caller released=%v) but the reference it registered is still counted", where, cn.kind, cn.id, cn.val, cn.err, cn.callerRel)
-				return
-			}
 			st := cn.m.state()
 			switch cn.kind {
 			case "wait", "resolve", "resolverel":
@@ -1031,6 +1024,23 @@ func body(c *sched.Ctl, cs Case, v *ev.Verdict) {
 		for _, f := range todo {
 			f()
 		}
+	}
+	c.Wait()
+	if !hadViol && !cs.Keep && len(c.Blocked()) == 0 {
+		// Every reference the harness obtained has been released, every consumer call is over
+		// (and what it returned was released), no resolver call is in flight, and values are
+		// not kept unreferenced: each value must have been released by now. A reference that
+		// some call registered and forgot would pin the current value here. (Harness-side
+		// truth only: no use of the reference machine.)
+		hm.Lock()
+		for _, vr := range m.values {
+			if vr.hasRel && vr.relCount == 0 {
+				fail("C08", "refcount:value-pinned-without-references", "every reference was released and every call is over (keep-unreferenced off), but the release function of value %d (call %d) has not run: something still counts as a reference", vr.id, vr.callID)
+				hadViol = true
+				break
+			}
+		}
+		hm.Unlock()
 	}
 	rc.ClearContext()
 	c.Wait()
